@@ -32,8 +32,20 @@ def build_harness():
     """cargo build --release in /verif/harness (path deps on /repo => always the current tree)."""
     t = time.time()
     env = dict(os.environ, CARGO_NET_OFFLINE="true")
-    r = subprocess.run(["cargo", "build", "--release", "--offline"], cwd=HARNESS, env=env,
-                       stdout=subprocess.PIPE, stderr=subprocess.STDOUT, text=True)
+    lock = None
+    if not os.environ.get("SCCV_REPO_LOCK_HELD"):   # selftest/try_seed.sh holds this lock while a seeded change is applied to /repo
+        try:
+            import fcntl
+            lock = open(os.path.expanduser("~/.sccv_repo.lock"), "w")
+            fcntl.flock(lock, fcntl.LOCK_EX)
+        except OSError:
+            lock = None
+    try:
+        r = subprocess.run(["cargo", "build", "--release", "--offline"], cwd=HARNESS, env=env,
+                           stdout=subprocess.PIPE, stderr=subprocess.STDOUT, text=True)
+    finally:
+        if lock:
+            lock.close()
     if r.returncode != 0:
         raise ToolError("harness build failed:\n" + r.stdout[-4000:])
     log("[build] harness built in %.1fs" % (time.time() - t))
